@@ -100,6 +100,9 @@ def base_entries(target):
         {"k": "choice", "id": "CHD", "title": "mode", "prompt": [Y], "dep": Y, "defaults": [{"m": "MB", "c": S("IDF_TARGET_CHIPB")}],
          "children": [m("MA"), m("MB", S("IDF_TARGET_CHIPB")), m("MC", S("UB"))]},
         {"k": "choice", "id": "CHG", "title": "gated mode", "prompt": [S("IDF_TARGET_CHIPB")], "dep": Y, "defaults": [], "children": [m("GA"), m("GB")]},
+        # two choices without a name: the first exists for one target only, the second everywhere
+        {"k": "choice", "id": "<choice 1>", "title": "unnamed gated", "prompt": [Y], "dep": S("IDF_TARGET_CHIPB"), "defaults": [], "children": [m("UA"), m("UB_")]},
+        {"k": "choice", "id": "<choice 2>", "title": "unnamed open", "prompt": [Y], "dep": Y, "defaults": [], "children": [m("VA"), m("VB")]},
     ]
     vars_ = [
         {"n": "CHD", "kind": "choice", "cands": [NOVAL, "MC"]},
@@ -136,6 +139,8 @@ def programs(rng, tier):
             ents.append(dup("DUP_B"))
             ents.append({"k": "menu", "title": "gated %s" % target, "dep": S("IDF_TARGET_CHIPB"), "visif": Y, "children": [mk_config("INMENU", "bool", prompt=Y, defaults=[{"v": ["y"], "c": Y}]), dup("DUP_A"), dup("DUP_B")]})
             ents.append({"k": "menu", "title": "open %s" % target, "dep": Y, "visif": Y, "children": [dup("DUP_A")]})
+            # a menu whose title is the name of an option that is hidden for one target
+            ents.append({"k": "menu", "title": "HIDP", "dep": Y, "visif": Y, "children": [dup("INTITLE")]})
             # a menu inside a menu whose entries are all hidden for one target (the menu itself is not gated): what
             # the outer menu lists as its contents must still be defined
             ents.append({"k": "menu", "title": "outer %s" % target, "dep": Y, "visif": Y, "children": [
@@ -167,7 +172,10 @@ def to_abstract(expr, kconf, names):
             return ["!", to_abstract(expr[1], kconf, names)]
         return [op, to_abstract(expr[1], kconf, names), to_abstract(expr[2], kconf, names)]
     if isinstance(expr, core.Choice):
-        return ["ch", expr.name or "<choice>"]
+        if expr.name:
+            return ["ch", expr.name]
+        unnamed = [c for c in kconf.unique_choices if not c.name]
+        return ["ch", "<choice %d>" % (unnamed.index(expr) + 1)]
     if expr is kconf.y:
         return ["y"]
     if expr is kconf.n:
